@@ -152,6 +152,17 @@ int new_call_out (object_t * ob, svalue_t * fun, time_t delay, int num_args, sva
 }
 
 
+#ifdef NEOLITH_VERIF
+/* verification hook: advance the serial number the next call_out handle is built from (never lowers it),
+   so that a harness can reach the end of the int range without making 2^26 call_outs */
+void
+verif_call_out_set_unique (int n)
+{
+  if (n > unique)
+    unique = n;
+}
+#endif
+
 /*
  * See if there are any call outs to be called. Set the 'command_giver'
  * if it is a living object. Check for shadowing objects, which may also
